@@ -74,7 +74,9 @@ theorem hostLoop_no_colon {s : Bytes} {ps ip fst : Bool} {h r : Bytes} {ip' : Bo
 /-- `fastParseHost`: either the bracketed form `[value]`, or the value itself, which then has no colon. -/
 theorem fastParseHost_cases {str : Bytes} {host : Host} {rest : Bytes}
     (h : Lex.fastParseHost str = some (host, rest)) :
-    (str = 91 :: host.value ++ 93 :: rest ∧ host.assumeIP = true) ∨ (str = host.value ++ rest ∧ (58 : Nat) ∉ host.value) := by
+    (str = 91 :: host.value ++ 93 :: rest ∧ host.assumeIP = true) ∨
+    (str = host.value ++ rest ∧ (58 : Nat) ∉ host.value ∧
+      ∀ b ∈ host.value, b = Facts.origins_labelSep ∨ Lex.isDigit b = true ∨ Lex.isASCIILabelByte b = true) := by
   unfold Lex.fastParseHost at h
   split at h
   · rename_i hb
@@ -107,13 +109,15 @@ theorem fastParseHost_cases {str : Bytes} {host : Host} {rest : Bytes}
           obtain ⟨hh, r, ip⟩ := x
           simp only [hl, Option.some.injEq, Prod.mk.injEq] at h
           obtain ⟨rfl, rfl⟩ := h
-          exact Or.inr ⟨hostLoop_append hl, hostLoop_no_colon hl⟩
+          exact Or.inr ⟨hostLoop_append hl, hostLoop_no_colon hl, hostLoop_bytes hl⟩
 
 /-- How `parseHostPattern` consumes its input: the value itself (no colon in it), or, for an IP
 literal, the value in brackets. -/
 theorem parseHostPattern_split {ext : Ext} {str value rest : Bytes} {kind : Kind}
     (h : parseHostPattern ext str = .ok (value, kind, rest)) :
-    (str = value ++ rest ∧ (58 : Nat) ∉ value) ∨ (kind ≠ .subdomains ∧ str = 91 :: value ++ 93 :: rest) := by
+    (str = value ++ rest ∧ (58 : Nat) ∉ value ∧
+      ∀ b ∈ value, b = 42 ∨ b = Facts.origins_labelSep ∨ Lex.isDigit b = true ∨ Lex.isASCIILabelByte b = true) ∨
+    (kind ≠ .subdomains ∧ str = 91 :: value ++ 93 :: rest) := by
   by_cases hk : kind = .subdomains
   · subst hk
     left
@@ -147,16 +151,22 @@ theorem parseHostPattern_split {ext : Ext} {str value rest : Bytes} {kind : Kind
             · cases h
             · simp only [Except.ok.injEq, Prod.mk.injEq] at h
               obtain ⟨rfl, _, rfl⟩ := h
-              rcases fastParseHost_cases hf with ⟨_, hip'⟩ | ⟨happ, hnc⟩
+              rcases fastParseHost_cases hf with ⟨_, hip'⟩ | ⟨happ, hnc, hcl⟩
               · rw [hip] at hip'; cases hip'
               · have hv : (42 :: 46 :: tl).take (host.value.length + (if (Kind.subdomains == Kind.subdomains) = true then Facts.origins_subdomainWildcard.length + 1 else 0)) = 42 :: 46 :: host.value := by
                   simp only [beq_self_eq_true, if_true, Facts.origins_subdomainWildcard, List.length_cons, List.length_nil]
                   rw [happ]
                   simp
                 rw [hv]
-                refine ⟨by rw [happ]; simp, ?_⟩
-                simp only [List.mem_cons, not_or]
-                exact ⟨by decide, by decide, hnc⟩
+                refine ⟨by rw [happ]; simp, ?_, ?_⟩
+                · simp only [List.mem_cons, not_or]
+                  exact ⟨by decide, by decide, hnc⟩
+                · intro b hb
+                  simp only [List.mem_cons] at hb
+                  rcases hb with rfl | rfl | hb
+                  · exact Or.inl rfl
+                  · exact Or.inr (Or.inl rfl)
+                  · exact Or.inr (hcl b hb)
     | domain =>
       exfalso
       simp only [hpk] at h
@@ -185,19 +195,19 @@ theorem parseHostPattern_split {ext : Ext} {str value rest : Bytes} {kind : Kind
     | nonLoopbackIP => simp [peekKind] at hpk; split at hpk <;> cases hpk
     | loopbackIP => simp [peekKind] at hpk; split at hpk <;> cases hpk
   · obtain ⟨host, hf, hval⟩ := parseHostPattern_nonwild h hk
-    rcases fastParseHost_cases hf with ⟨hbr, hip⟩ | ⟨happ, hnc⟩
+    rcases fastParseHost_cases hf with ⟨hbr, hip⟩ | ⟨happ, hnc, hcl⟩
     · right
       rcases hval with ⟨_, hv⟩ | ⟨hip', _⟩
       · exact ⟨hk, by rw [hv]; exact hbr⟩
       · rw [hip] at hip'; cases hip'
     · left
       rcases hval with ⟨_, hv⟩ | ⟨_, hv, _⟩
-      · exact ⟨by rw [hv]; exact happ, by rw [hv]; exact hnc⟩
+      · exact ⟨by rw [hv]; exact happ, by rw [hv]; exact hnc, by rw [hv]; exact fun b hb => Or.inr (hcl b hb)⟩
       · have : value = host.value := by
           rw [hv]
           conv => lhs; rw [happ]
           simp
-        exact ⟨by rw [this]; exact happ, by rw [this]; exact hnc⟩
+        exact ⟨by rw [this]; exact happ, by rw [this]; exact hnc, by rw [this]; exact fun b hb => Or.inr (hcl b hb)⟩
 
 /-! ### ports -/
 
@@ -376,7 +386,7 @@ theorem render_eq_raw {ext : Ext} {s : Bytes} {p : Pattern} (h : ParsedAs ext s 
     rw [hkey]
     simp only [List.reverse_reverse]
     rw [renderEntry_eq _ _ _ _ hwf.port]
-    rcases hsplit with ⟨hstr, hnc⟩ | ⟨hnk, _⟩
+    rcases hsplit with ⟨hstr, hnc, _⟩ | ⟨hnk, _⟩
     · have hnc' : (46 :: base).contains Facts.origins_hostPortSep = false := by
         rw [hv] at hnc
         simp only [List.mem_cons, not_or] at hnc
@@ -398,7 +408,7 @@ theorem render_eq_raw {ext : Ext} {s : Bytes} {p : Pattern} (h : ParsedAs ext s 
     simp only [List.reverse_reverse]
     rw [renderEntry_eq _ _ _ _ hwf.port]
     simp only [Bool.false_eq_true, if_false, List.append_nil]
-    rcases hsplit with ⟨hstr, hnc⟩ | ⟨_, hstr⟩
+    rcases hsplit with ⟨hstr, hnc, _⟩ | ⟨_, hstr⟩
     · have hnc' : p.value.contains Facts.origins_hostPortSep = false := by
         cases hcc : p.value.contains Facts.origins_hostPortSep with
         | false => rfl
